@@ -65,7 +65,7 @@ void Program::InvalidateSolver() {
   solver_.reset();
 }
 
-bool Program::is_reachable(const CFGNode* src, const CFGNode* dst) {
+bool Program::is_reachable(const CFGNode* src, const CFGNode* dst) const {
   return backward_reachability_->is_reachable(dst->id(), src->id());
 }
 
